@@ -479,6 +479,50 @@ func run(c *props.Ctx) {
 			}
 		}
 	}
+	// long chains with many equal order values (library sorts switch algorithm above a dozen elements):
+	// n tied slots and one with a lower order value registered last, in each phase; in the rule-check
+	// phase every choice of the tied slot that blocks
+	for _, n := range []int{12, 13, 14, 20, 33} {
+		ties := func(beh int) []slotSpec {
+			out := make([]slotSpec, 0, n+1)
+			for i := 0; i < n; i++ {
+				out = append(out, slotSpec{1, beh})
+			}
+			return append(out, slotSpec{0, beh})
+		}
+		var chains []Chain
+		chains = append(chains, Chain{Prep: ties(pOK), Check: ties(cNil), Stat: ties(sRecord)})
+		for j := 0; j < n; j++ {
+			ck := ties(cNil)
+			ck[j].Beh = cBlockPooled
+			chains = append(chains, Chain{Check: ck, Stat: ties(sRecord)})
+			ck2 := ties(cNil)
+			ck2[j].Beh = cBlockOwn
+			ck2[(j+n/2)%n].Beh = cBlockPooledBare
+			chains = append(chains, Chain{Check: ck2, Stat: []slotSpec{{0, sRecord}}, Follow: 1})
+		}
+		for _, ch := range chains {
+			idx++
+			if !c.Mine(idx) {
+				continue
+			}
+			out, v := evaluate(ch)
+			c.R.Evaluations++
+			c.R.Transitions++
+			if v != "" {
+				sg := signature(v)
+				perSig[sg]++
+				if perSig[sg] <= 3 {
+					c.R.Violate(report.Violation{Signature: sg, What: v, Scenario: ch.String(), Replay: ch})
+				}
+				continue
+			}
+			if idx%7 == 0 {
+				c.R.Outcome(out)
+			}
+		}
+	}
+	c.R.Bounds["long_tied_chains_up_to_slots"] = 34
 	c.R.States = c.R.Evaluations
 	c.R.Traces = c.R.Evaluations
 }
